@@ -409,10 +409,11 @@ def addClient (H : Hash) (roles : RoleTable) (d : Description) (members : List M
     else if members.any (fun m => m.id = id) then (members, .error .duplicateId)
     else (members ++ [{ id := id, username := u, perms := perms }], .ok perms)
 
-/-- `remove(v, l)`: drop the first occurrence -/
+/-- `remove(v, l)`: since 391656f every occurrence is dropped (before, only the first one:
+a permission held twice survived its revocation) -/
 def remove (v : String) : List String → List String
   | [] => []
-  | w :: rest => if v = w then rest else w :: remove v rest
+  | w :: rest => if v = w then remove v rest else w :: remove v rest
 
 /-- `addnew(v, l)` -/
 def addnew (v : String) (l : List String) : List String :=
